@@ -98,25 +98,22 @@ func c26At(s string) string {
 func c26Real(p string) string { return filepath.Join(c26Root, filepath.FromSlash(strings.TrimPrefix(p, "@"))) }
 
 func c26Content(tok string) []byte {
+	// the token text itself followed by pseudo-random padding up to the requested size: distinct
+	// tokens always give distinct contents
 	n := 0
 	if i := strings.LastIndexByte(tok, 'x'); i >= 0 {
 		n, _ = strconv.Atoi(tok[i+1:])
 	}
-	b := make([]byte, n)
+	b := []byte(tok + ":")
 	r := newRng(int64(len(tok)))
 	h := fnv.New64a()
 	h.Write([]byte(tok))
 	r.s ^= h.Sum64()
-	for i := range b {
-		if i%8 == 0 {
-			v := r.u64()
-			for k := 0; k < 8 && i+k < n; k++ {
-				b[i+k] = byte(v >> (8 * k))
-			}
+	for len(b) < n {
+		v := r.u64()
+		for k := 0; k < 8 && len(b) < n; k++ {
+			b = append(b, byte(v>>(8*k)))
 		}
-	}
-	if n == 0 {
-		b = []byte(tok)
 	}
 	h2 := fnv.New64a()
 	h2.Write(b)
